@@ -216,20 +216,27 @@ def check_stacking(case):
         exp = np.hstack(cols)
         require(out.shape == exp.shape, "stacking:shape", "%r vs %r (members %r)" % (out.shape, exp.shape, [c.shape[1] for c in cols]), facts)
         require(np.array_equal(out, exp, equal_nan=True), "stacking:not-concatenation", "transform is not the column concatenation of its members' own outputs", facts)
-    return Outcome(["members=%d" % len(members), "method=%s" % case["method"], "some-wrapped" if any(m["wrap"] for m in case["members"]) else "raw"],
+        kinds = "".join(np.asarray(c).dtype.kind for c in cols)
+    return Outcome(["members=%d" % len(members), "method=%s" % case["method"], "some-wrapped" if any(m["wrap"] for m in case["members"]) else "raw",
+                    "task=" + case.get("task", "reg"), "int-output-before-float-output" if ("if" in kinds or "uf" in kinds) else "outputs:" + ("mixed" if len(set(kinds)) > 1 else "one-dtype")],
                    len(members) >= 2)
 
 
 @st.composite
 def _stacking_cases(draw, tier="quick"):
     n = draw(st.integers(1, 4))
+    # task 'clf': integer class labels as the target, so that classifiers (integer outputs), regressors (float outputs) and transformers sit
+    # side by side in one stacking, in any order
+    task = draw(st.sampled_from(["reg", "reg", "clf"]))
     members = []
     for _ in range(n):
-        kind = draw(st.sampled_from(["reg", "reg", "tr"]))
-        wrap = kind == "reg" and draw(st.booleans())
-        members.append(dict(model=_models_for(kind, draw) if kind != "reg" else R.s_regressor(draw), wrap=wrap, wrap_method=draw(st.sampled_from([None, "predict"])) if wrap else None))
-    return dict(members=members, method=draw(st.sampled_from([None, "predict"])), datasets=[R.d_reg(draw), R.d_reg(draw)], use_weights=draw(st.booleans()),
-                history=[draw(st.integers(0, 1)) for _ in range(draw(st.integers(1, 3)))])
+        kind = draw(st.sampled_from(["reg", "reg", "tr"] if task == "reg" else ["clf", "clf", "reg", "tr"]))
+        wrap = kind in ("reg", "clf") and draw(st.booleans())
+        model = R.s_regressor(draw) if kind == "reg" else (R.s_classifier(draw) if kind == "clf" else _models_for(kind, draw))
+        members.append(dict(model=model, wrap=wrap, wrap_method="predict" if (wrap and kind == "clf") else (draw(st.sampled_from([None, "predict"])) if wrap else None)))
+    datasets = [R.d_reg(draw), R.d_reg(draw)] if task == "reg" else [R.d_clf(draw), R.d_clf(draw)]
+    return dict(members=members, method=draw(st.sampled_from([None, "predict"])), datasets=datasets, use_weights=draw(st.booleans()) and task == "reg",
+                history=[draw(st.integers(0, 1)) for _ in range(draw(st.integers(1, 3)))], task=task)
 
 
 # ------------------------------------------------------------------------------- transfer
